@@ -102,12 +102,9 @@ func (si *SessionInitMessage) Unmarshal(r io.Reader) error {
 	var sessionExtsLen uint32
 	if err := binary.Read(r, binary.BigEndian, &sessionExtsLen); err != nil {
 		return err
-	} else if sessionExtsLen > 0 {
-		sessionExtsBuff := make([]byte, sessionExtsLen)
-
-		if _, err := io.ReadFull(r, sessionExtsBuff); err != nil {
-			return err
-		}
+	} else if err := discardBytes(uint64(sessionExtsLen), r); err != nil {
+		// Those are skipped without buffering them, as their length is not to be trusted.
+		return err
 	}
 
 	return nil
